@@ -40,6 +40,7 @@ FullNodes ==
     NS("SweepSrc", <<3>>), NS("SweepMul", <<4>>),       \* a second sweep of each kind (same generated class name)
     WithBogus(NC("Mul", "factor", 4)), WithBogus(N0("Sq")), WithBogus(NK("Rename", "a", "b")),
     N0("PSrc"), N0("PSrcInj"), N0("PSink"), N0("Touch"), NK("ProbeP", "a", ""),
+    NC("CtxWP", "factor", 4), NS("SweepCtxW", <<2, 3>>), N0("SliceCtxW"),     \* context-writing element: plain, swept, sliced
     Node("ProbeP", [x \in {"factor"} |-> 4], "factor", "", <<>>) }
 
 \* focus sets: fewer instances, longer programs
@@ -48,7 +49,8 @@ FeedNodes ==   \* parameter feeding
     NK("Rename", "factor", "addend"), NK("Delete", "factor", ""), N0("Sq") }
 SliceNodes ==  \* slicers and sweeps
   { NS("SweepSrc", <<1, 2>>), N0("SliceMulDef"), N0("SliceMul"), NK("SliceProbe", "factor", ""),
-    NK("SliceProbe", "a", ""), N0("Sum"), N0("MulDef"), NK("SweepSrcCtx", "a", ""), NS("SweepMul", <<2, 3>>) }
+    NK("SliceProbe", "a", ""), N0("Sum"), N0("MulDef"), NK("SweepSrcCtx", "a", ""), NS("SweepMul", <<2, 3>>),
+    NS("SweepCtxW", <<2, 3>>), N0("SliceCtxW") }
 CtxNodes ==    \* context processors
   { N0("Src0"), NK("Rename", "a", "b"), NK("Rename", "b", "a"), NK("Delete", "a", ""),
     NK("Template", "a", "b"), NK("Probe", "a", ""), N0("CtxW"), NK("Rename", "w", "a") }
